@@ -10,6 +10,7 @@ Line-protocol driver for the payments model (property C06).
   invoice <h> <amount_msat> <now> <expiry> <tag>  a BOLT-11 invoice issued at <now>
   cpsign <c> new|retry <offered> <received>       HTLC lists: `-` or `h:value_sat:cltv,...`
   hval   <c> new|retry <offered> <received>
+  issue <h> <amount_msat> <now> <expiry> <tag>    the node issues (signs) a BOLT-11 invoice of its own
   revoke <c>
   cprevoke <c>                                   counterparty revokes its oldest unrevoked commitment
   fulfill <c> <h>
@@ -38,6 +39,7 @@ def payS (nch : Nat) (p : Payment) : String :=
 def digest (n : Node) : String :=
   s!"v={n.vc.mem.velocity} " ++ " | ".intercalate ([0, 1, 2].map (fun h =>
     let i := match n.invoices h with | some inv => toString inv.amount | none => "-"
+    let i := match n.issued h with | some inv => i ++ "+i" ++ toString inv.amount | none => i
     let p := match n.payments h with | some p => payS n.nch p | none => "-"
     s!"{i} {p}"))
 
@@ -123,6 +125,11 @@ def step (s : St) (toks : List String) : St × String :=
     match nat? c with
     | some c => run s (.cpRevoke c) commitS
     | none => (s, "bad-op")
+  | ["issue", h, amt, ts, exp, id] =>
+    match nat? h, nat? amt, nat? ts, nat? exp, nat? id with
+    | some h, some amt, some ts, some exp, some id =>
+      run s (.issue h ⟨amt, ts + exp + Gen.Payments.invoicePruneTime, [2, amt, ts, exp, id]⟩) commitS
+    | _, _, _, _, _ => (s, "bad-op")
   | ["fulfill", _, h] =>
     match nat? h with
     | some h => run s (.fulfill h) (fun _ => "ok")
